@@ -7,10 +7,12 @@
   oracle only), with no row written at or below `Screen.height` (`WF`):
 
     diff_confined, no_scroll, diff_correct, diff_done            one call of `_output_screen_diff`
-    render_seq, render_seq_last, incremental_eq_scratch           any sequence of render / done / erase
+    render_seq, render_seq_last, incremental_eq_scratch           any sequence of render / done / erase / clear
     done_full_height_scrolls, wf_needed                           the stated exception; why `WF`
 
   Lemmas: `Ptk.Props.C06Lemmas` (pieces of the differ), `Ptk.Props.C06Diff` (`diff_master`).
+  More:   `Ptk.Props.C06Scroll` (`diff_done_scroll`: the exception in general),
+          `Ptk.Props.C06Wide` (arbitrary cells: `diff_confined_wide`, `no_scroll_wide`, `render_seq_geo`).
 -/
 import Ptk.Props.C06Diff
 namespace Ptk.C06
@@ -356,10 +358,7 @@ theorem exec_erase (e : Env) (R : RState) (T : Term) (la : Bool) (inv : RInv e R
   simp only [hr, hcl, ho1, ho2, decide_false, Bool.or_false, inv.sgr, erased_dflt]
   congr 1
   funext y x
-  have : (y = 0 ∧ 0 ≤ x) ∨ (true = true ∧ 0 < y) := by
-    by_cases h : y = 0
-    · exact Or.inl ⟨h, Nat.zero_le _⟩
-    · exact Or.inr ⟨rfl, by omega⟩
+  have : y = 0 ∨ 0 < y := by omega
   simp [this]
 
 theorem erase_step (e : Env) (R : RState) (T : Term) (la : Bool) (inv : RInv e R T) :
